@@ -50,6 +50,7 @@ func NewVerifC07Node(cfg config.Config, peers map[uint64]string,
 		validateTarget:      validator,
 	}
 	n.sm = mk(n)
+	n.toApplyQ = n.sm.TaskQ() // as newNode does
 	lr := logdb.NewLogReader(cfg.ShardID, cfg.ReplicaID, nil)
 	pas := make([]raft.PeerAddress, 0, len(peers))
 	for k, v := range peers {
@@ -127,3 +128,14 @@ func (v *VerifC07Node) Tick() {
 	v.n.pendingConfigChange.tick(1)
 	v.n.pendingConfigChange.gc()
 }
+
+// PushEntries is node.pushEntries: committed entries are put on the apply queue
+// (and recorded as pushed) without being handled yet.
+func (v *VerifC07Node) PushEntries(ents []pb.Entry) { v.n.pushEntries(ents) }
+
+// UpdateAppliedIndex is node.updateAppliedIndex, what the step worker does at
+// every step: raft is told how far the state machine has applied.
+func (v *VerifC07Node) UpdateAppliedIndex() uint64 { return v.n.updateAppliedIndex() }
+
+// RaftApplied is the applied index raft holds.
+func (v *VerifC07Node) RaftApplied() uint64 { return raft.VerifC07Applied(&v.n.p) }
